@@ -57,11 +57,169 @@ type rewriter struct {
 	fset  *token.FileSet
 	file  string
 	count int
+	tmp   int
+}
+
+// atomicNames are the method and function names of sync/atomic. A statement
+// that calls one of them (on whatever receiver: the instrumenter does not
+// type-check, and a scheduling point too many is harmless) gets a plain
+// scheduling point in front of it, so that the windows of lock-free code -
+// between a Load and the CompareAndSwap that follows it - are explored too.
+var atomicNames = map[string]bool{
+	"CompareAndSwap": true, "Swap": true, "Load": true, "Store": true,
+	"CompareAndSwapInt32": true, "CompareAndSwapInt64": true, "CompareAndSwapUint32": true, "CompareAndSwapUint64": true, "CompareAndSwapPointer": true, "CompareAndSwapUintptr": true,
+	"LoadInt32": true, "LoadInt64": true, "LoadUint32": true, "LoadUint64": true, "LoadPointer": true, "LoadUintptr": true,
+	"StoreInt32": true, "StoreInt64": true, "StoreUint32": true, "StoreUint64": true, "StorePointer": true, "StoreUintptr": true,
+	"SwapInt32": true, "SwapInt64": true, "SwapUint32": true, "SwapUint64": true, "SwapPointer": true, "SwapUintptr": true,
+	"AddInt32": true, "AddInt64": true, "AddUint32": true, "AddUint64": true, "AddUintptr": true,
+}
+
+// callsAtomic reports whether the statement itself (not a nested block or
+// function literal, which are visited on their own) contains such a call.
+func callsAtomic(s ast.Stmt) bool {
+	found := false
+	var exprs []ast.Expr
+	switch x := s.(type) {
+	case *ast.ExprStmt:
+		exprs = []ast.Expr{x.X}
+	case *ast.AssignStmt:
+		exprs = append(append(exprs, x.Lhs...), x.Rhs...)
+	case *ast.IfStmt:
+		if x.Init != nil && callsAtomic(x.Init) {
+			return true
+		}
+		exprs = []ast.Expr{x.Cond}
+	case *ast.ForStmt:
+		if x.Cond != nil {
+			exprs = []ast.Expr{x.Cond}
+		}
+	case *ast.ReturnStmt:
+		exprs = x.Results
+	case *ast.IncDecStmt:
+		exprs = []ast.Expr{x.X}
+	case *ast.SwitchStmt:
+		if x.Tag != nil {
+			exprs = []ast.Expr{x.Tag}
+		}
+	}
+	for _, e := range exprs {
+		ast.Inspect(e, func(n ast.Node) bool {
+			if _, ok := n.(*ast.FuncLit); ok {
+				return false
+			}
+			if call, ok := n.(*ast.CallExpr); ok {
+				if sel, ok := call.Fun.(*ast.SelectorExpr); ok && atomicNames[sel.Sel.Name] {
+					found = true
+				}
+			}
+			return !found
+		})
+	}
+	return found
+}
+
+func isAtomicCall(e ast.Expr) (*ast.CallExpr, bool) {
+	call, ok := e.(*ast.CallExpr)
+	if !ok {
+		return nil, false
+	}
+	sel, ok := call.Fun.(*ast.SelectorExpr)
+	return call, ok && atomicNames[sel.Sel.Name]
+}
+
+func containsAtomic(e ast.Expr) bool {
+	found := false
+	ast.Inspect(e, func(n ast.Node) bool {
+		if _, ok := n.(*ast.FuncLit); ok {
+			return false
+		}
+		if x, ok := n.(ast.Expr); ok {
+			if _, ok := isAtomicCall(x); ok {
+				found = true
+			}
+		}
+		return !found
+	})
+	return found
+}
+
+// hoist looks for the shape `X.CompareAndSwap(old, <expression with an atomic
+// read>)` (or any atomic call with an atomic read among its arguments) at the
+// top of a statement - the classic lock-free pop `head.CompareAndSwap(b,
+// b.next.Load())`. The inner read is moved into a temporary in front of the
+// statement, with a scheduling point between the read and the operation that
+// consumes it: the window in which the value read can go stale (ABA). Only
+// done where the receiver and the other arguments are plain variables and
+// field selections, so that the order of evaluation does not matter.
+func (r *rewriter) hoist(s ast.Stmt) (pre []ast.Stmt) {
+	var top *ast.Expr
+	switch x := s.(type) {
+	case *ast.ExprStmt:
+		top = &x.X
+	case *ast.IfStmt:
+		if x.Init != nil {
+			return nil
+		}
+		top = &x.Cond
+		if u, ok := x.Cond.(*ast.UnaryExpr); ok && u.Op == token.NOT {
+			top = &u.X
+		}
+	case *ast.AssignStmt:
+		if len(x.Rhs) != 1 {
+			return nil
+		}
+		top = &x.Rhs[0]
+	default:
+		return nil
+	}
+	call, ok := isAtomicCall(*top)
+	if !ok {
+		return nil
+	}
+	if sel := call.Fun.(*ast.SelectorExpr); !addressable(sel.X) {
+		return nil
+	}
+	for i, a := range call.Args {
+		if !containsAtomic(a) {
+			if !addressable(a) {
+				return nil
+			}
+			continue
+		}
+		r.tmp++
+		name := fmt.Sprintf("verifTmp%d", r.tmp)
+		line := r.fset.Position(s.Pos()).Line
+		pre = append(pre,
+			&ast.AssignStmt{Lhs: []ast.Expr{ast.NewIdent(name)}, Tok: token.DEFINE, Rhs: []ast.Expr{a}},
+			&ast.ExprStmt{X: &ast.CallExpr{
+				Fun: &ast.SelectorExpr{X: ast.NewIdent("verifhook"), Sel: ast.NewIdent("BeforeLock")},
+				Args: []ast.Expr{ast.NewIdent("nil"), ast.NewIdent("false"),
+					&ast.BasicLit{Kind: token.INT, Value: fmt.Sprint(siteOf(r.file, line) + 4000000)}}}})
+		call.Args[i] = ast.NewIdent(name)
+		r.count++
+	}
+	return pre
 }
 
 func (r *rewriter) list(stmts []ast.Stmt) []ast.Stmt {
 	var out []ast.Stmt
 	for _, s := range stmts {
+		if callsAtomic(s) {
+			out = append(out, r.hoist(s)...)
+			line := r.fset.Position(s.Pos()).Line
+			out = append(out, &ast.ExprStmt{X: &ast.CallExpr{
+				Fun: &ast.SelectorExpr{X: ast.NewIdent("verifhook"), Sel: ast.NewIdent("BeforeLock")},
+				Args: []ast.Expr{ast.NewIdent("nil"), ast.NewIdent("false"),
+					&ast.BasicLit{Kind: token.INT, Value: fmt.Sprint(siteOf(r.file, line) + 2000000)}}}})
+			r.count++
+			if fs, ok := s.(*ast.ForStmt); ok && fs.Body != nil {
+				// a retry loop around a compare-and-swap: every round is a point
+				fs.Body.List = append([]ast.Stmt{&ast.ExprStmt{X: &ast.CallExpr{
+					Fun: &ast.SelectorExpr{X: ast.NewIdent("verifhook"), Sel: ast.NewIdent("BeforeLock")},
+					Args: []ast.Expr{ast.NewIdent("nil"), ast.NewIdent("false"),
+						&ast.BasicLit{Kind: token.INT, Value: fmt.Sprint(siteOf(r.file, line) + 3000000)}}}}}, fs.Body.List...)
+			}
+		}
 		if es, ok := s.(*ast.ExprStmt); ok {
 			if call, ok := es.X.(*ast.CallExpr); ok && len(call.Args) == 0 {
 				if sel, ok := call.Fun.(*ast.SelectorExpr); ok && (sel.Sel.Name == "Lock" || sel.Sel.Name == "RLock") && addressable(sel.X) {
